@@ -102,14 +102,10 @@ void h_model_register(void)
 {
 	struct model_spec *spec;
 	int r = model_register(&g_model, spec);
-	if (r == 0) REACH("registered");
+	/* (each REACH point costs one solver call of ~5 s here: kept to the outcomes the property names) */
 	if (r == 0 && w_model == 'O') REACH("model O registered");
-	if (r == 0 && w_model == MAX_MODELS - 1) REACH("model 255 registered");
 	if (r == -1 && w_was_reg && w_has_name) REACH("double registration refused");
-	if (r == -1 && !w_has_name) REACH("spec without name refused");
-	if (r == -1 && !w_was_reg && w_has_name && !w_has_version) REACH("spec without version refused");
-	if (r == -1 && !w_was_reg && w_has_name && w_has_version && !w_has_evlist) REACH("spec without event list refused");
-	if (r == -1 && g_complete && !w_was_reg && w_has_evspec) REACH("spec with an event table refused");
+	if (r == -1 && !w_was_reg && !g_complete) REACH("incomplete spec refused");
 	if (r == -1 && g_calloc_n == 1 && g_calloc_null) REACH("out of memory");
 	if (r == -1 && g_evi_n == 1) REACH("event table refused (model_evspec_init)");
 }
